@@ -29,6 +29,7 @@ structure St where
   eflight : List Flight := []
   emax : List (Nat × Nat) := []  -- implementation-reported maxSeqId per instance
   key0 : Bool := false           -- a failed reservation returned key 0 in this case
+  ewrapped : Bool := false       -- some etcd range left the 64-bit key space / the etcd value wrapped
   slog : List Obs := []
   vids : List Nat := []
   vserial : Bool := true
@@ -82,10 +83,13 @@ def judgeEtcdDone (st : St) (n : Nat) (i : Nat) (fl : Flight) (toks : List Strin
   | .next count =>
     let r := tokNat (toks.getD 0 "0")
     let failedKey := fl.failed && r == 0
+    let wraps := count != 0 && r + count > W
     let msgs1 :=
+      if wraps then [specfail n "EtcdSequencer.NextFileId/counter-wraps-uint64" s!"key {r} count {count}: the range leaves the 64-bit key space and currentSeqId wraps"] else
       match clash st.elog r count with
       | some (.issue _ s _) =>
-        if failedKey || (s == 0 && st.key0) then [specfail n "EtcdSequencer.NextFileId/etcd-error-returns-key-0" s!"[{r},+{count}) overlaps the earlier range at {s}: a failed reservation returns key 0"]
+        if st.ewrapped then [specfail n "EtcdSequencer.NextFileId/counter-wraps-uint64" s!"[{r},+{count}) overlaps the earlier range at {s} after a uint64 wrap"]
+        else if failedKey || (s == 0 && st.key0) then [specfail n "EtcdSequencer.NextFileId/etcd-error-returns-key-0" s!"[{r},+{count}) overlaps the earlier range at {s}: a failed reservation returns key 0"]
         else [specfail n "EtcdSequencer/ranges-overlap" s!"[{r},+{count}) overlaps an earlier range starting at {s}"]
       | _ => []
     let msgs2 :=
@@ -94,13 +98,15 @@ def judgeEtcdDone (st : St) (n : Nat) (i : Nat) (fl : Flight) (toks : List Strin
       | some (.report _ seen) =>
         match st.ereps.find? (fun q => q.inst == i && q.seen == seen) with
         | some q =>
-          if q.dropped then ["COV etcd.report-dropped-by-etcd-failure"]
+          if st.ewrapped && r != seen then [specfail n "EtcdSequencer.NextFileId/counter-wraps-uint64" s!"key {r} is not above the reported max {seen} after a uint64 wrap"]
+          else if q.dropped then ["COV etcd.report-dropped-by-etcd-failure"]
           else if !q.taken then [specfail n "EtcdSequencer.SetMax/report-not-above-reserved-max-ignored" s!"key {r} handed out after max key {seen} was reported"]
           else if r == seen then [specfail n "EtcdSequencer.SetMax/next-key-equals-reported-max" s!"key {r} handed out after max key {seen} was reported"]
           else [specfail n "EtcdSequencer/key-not-above-reported-max" s!"key {r} after report {seen}"]
         | none => [specfail n "EtcdSequencer/key-not-above-reported-max" s!"key {r} after report {seen}"]
       | _ => []
-    ({ st with elog := .issue i r count :: st.elog, key0 := st.key0 || failedKey },
+    ({ st with elog := .issue i r count :: st.elog, key0 := st.key0 || failedKey,
+               ewrapped := st.ewrapped || wraps || (count != 0 && r + count == W) },
       msgs1 ++ msgs2 ++ [if failedKey then "COV etcd.key0" else "COV etcd.issue"])
 
 def parseRanges (toks : List String) : List (Nat × Nat) :=
@@ -166,7 +172,8 @@ def step (st : St) (n : Nat) (ln : Line) : St × List String :=
     match op with
     | none => (st, diff n ln ["invalid"])
     | some op =>
-      let (es', out) := start st.es i op
+      let pre := st.es.inst i
+      let (es', out) := startW st.es i op
       let model := outToks es' i out
       let st := { st with es := es' }
       if o.getD 0 "" == "invalid" then (st, diff n ln model) else
@@ -177,8 +184,8 @@ def step (st : St) (n : Nat) (ln : Line) : St × List String :=
         | _ => st
       let fl : Flight := { inst := i, op := op }
       let cov := match op, out with
-        | .next _, .cont => ["COV etcd.batch"]
-        | .next _, _ => ["COV etcd.local"]
+        | .next c, .cont => ["COV etcd.batch"] ++ (if pre.cur + c ≥ W ∨ DefaultEtcdSteps + c ≥ W then ["COV etcd.wrap"] else [])
+        | .next c, _ => ["COV etcd.local"] ++ (if pre.cur + c ≥ W then ["COV etcd.wrap"] else [])
         | .setMax _, .cont => ["COV etcd.setmax.taken"]
         | .setMax _, _ => ["COV etcd.setmax.ignored"]
         | .new _, _ => ["COV etcd.start-new"]
@@ -188,9 +195,11 @@ def step (st : St) (n : Nat) (ln : Line) : St × List String :=
       else ({ st with eflight := fl :: st.eflight.filter (·.inst != i) }, diff n ln model ++ cov)
   | "kv" =>
     let i := argN 0; let fault := a.getD 1 "0" == "1"
-    let (es', ev, out) := kvStep st.es i fault
+    let (es', ev, out) := kvStepW st.es i fault
     let model := (match ev with | some e => kvToks e | none => []) ++ outToks es' i out
-    let st := { st with es := es' }
+    -- implementation side: a successful compare-and-swap to a SMALLER value = the etcd value wrapped
+    let implWrap := o.getD 0 "" == "set" && o.getD 3 "" == "ok" && tokNat (o.getD 2 "0") < tokNat (o.getD 1 "0") && o.getD 1 "" != "-"
+    let st := { st with es := es', ewrapped := st.ewrapped || implWrap }
     if o.getD 0 "" == "invalid" then (st, diff n ln model) else
     -- implementation side
     let k := if o.getD 0 "" == "get" then 2 else if o.getD 0 "" == "create" then 3 else 4
@@ -234,7 +243,7 @@ def step (st : St) (n : Nat) (ln : Line) : St × List String :=
         let id := tokNat (o.getD 1 "0")
         let msgs :=
           if !st.vserial then ["COV vid.unlocked-schedule"] else
-          (if st.vids.contains id then [specfail n "Topology.NextVolumeId/duplicate-volume-id" s!"volume id {id} returned twice"] else []) ++
+          (if !vidJudge st.vids id then [specfail n "Topology.NextVolumeId/duplicate-volume-id" s!"volume id {id} returned twice"] else []) ++
           (if id ≤ hbBefore then [specfail n "Topology.NextVolumeId/not-above-reported-max" s!"volume id {id} although {hbBefore} was reported before"] else []) ++
           (if st.vhbmax ≥ id && id > hbBefore then ["COV vid.hb-in-window"] else []) ++ ["COV vid.serial"]
         ({ st with vids := id :: st.vids }, diff n ln model ++ msgs)
